@@ -12,7 +12,8 @@ Open Scope nat_scope.
 Fixpoint ddeg (r : re) : nat :=
   match r with
   | REps | RBol | REol | RChr _ => 0
-  | RSeq a b | RAlt a b => ddeg a + ddeg b
+  | RSeq a b => ddeg a + ddeg b
+  | RAlt a b => Nat.max (ddeg a) (ddeg b)
   | ROpt _ a | RGrp _ a => ddeg a
   | RStar _ _ => 1
   end.
@@ -45,16 +46,17 @@ Proof.
     replace ((1 + ca * (z + 1) + cb) * (A * B) * (Kd + 1))
       with (A * B * (Kd + 1) + ca * (z + 1) * (A * B) * (Kd + 1) + cb * (A * B) * (Kd + 1)) by ring.
     lia.
-  - specialize (IHa n Kd). specialize (IHb n Kd). rewrite Nat.pow_add_r.
-    assert (Pa := pow1 n (ddeg a)). assert (Pb := pow1 n (ddeg b)).
-    set (A := (n + 1) ^ ddeg a) in *. set (B := (n + 1) ^ ddeg b) in *.
+  - specialize (IHa n Kd). specialize (IHb n Kd).
+    assert (Ma : (n + 1) ^ ddeg a <= (n + 1) ^ Nat.max (ddeg a) (ddeg b)) by (apply Nat.pow_le_mono_r; lia).
+    assert (Mb : (n + 1) ^ ddeg b <= (n + 1) ^ Nat.max (ddeg a) (ddeg b)) by (apply Nat.pow_le_mono_r; lia).
+    assert (Pm := pow1 n (Nat.max (ddeg a) (ddeg b))).
+    set (A := (n + 1) ^ ddeg a) in *. set (B := (n + 1) ^ ddeg b) in *. set (M := (n + 1) ^ Nat.max (ddeg a) (ddeg b)) in *.
     set (ca := dcoef a) in *. set (cb := dcoef b) in *. set (za := bnd0 a) in *. set (zb := bnd0 b) in *.
-    assert (H1 : ca * A * (Kd + 1) <= ca * (A * B) * (Kd + 1)) by nia.
-    assert (H2 : cb * B * (Kd + 1) <= cb * (A * B) * (Kd + 1)) by nia.
-    assert (H4 : 1 <= A * B * (Kd + 1)) by nia.
-    replace ((1 + za + zb + ca + cb) * (A * B) * (Kd + 1))
-      with ((1 + za + zb) * (A * B * (Kd + 1)) + ca * (A * B) * (Kd + 1) + cb * (A * B) * (Kd + 1)) by ring.
-    assert (H5 : 1 + za + zb <= (1 + za + zb) * (A * B * (Kd + 1))) by nia.
+    assert (H1 : ca * A * (Kd + 1) <= ca * M * (Kd + 1)) by nia.
+    assert (H2 : cb * B * (Kd + 1) <= cb * M * (Kd + 1)) by nia.
+    replace ((1 + za + zb + ca + cb) * M * (Kd + 1))
+      with ((1 + za + zb) * (M * (Kd + 1)) + ca * M * (Kd + 1) + cb * M * (Kd + 1)) by ring.
+    assert (H5 : 1 + za + zb <= (1 + za + zb) * (M * (Kd + 1))) by nia.
     lia.
   - specialize (IHa n Kd). assert (Pa := pow1 n (ddeg a)).
     set (A := (n + 1) ^ ddeg a) in *. set (ca := dcoef a) in *. set (za := bnd0 a) in *.
@@ -72,7 +74,8 @@ Qed.
 Fixpoint deg2 (r : re) : nat :=
   match r with
   | REps | RBol | REol | RChr _ => 0
-  | RSeq a b | RAlt a b => deg2 a + deg2 b
+  | RSeq a b => deg2 a + deg2 b
+  | RAlt a b => Nat.max (deg2 a) (deg2 b)
   | ROpt _ a | RGrp _ a => deg2 a
   | RStar _ (RChr _) => 1
   | RStar _ (RSeq (RChr _) rest) => ddeg rest + 1
@@ -114,13 +117,16 @@ Proof.
     assert (H4 : 1 <= ca * A * (cb * B * (K + 1))) by nia.
     nia.
   - cbn [bound2 coef2 deg2].
-    specialize (IHa n K). specialize (IHb n K). rewrite Nat.pow_add_r.
-    assert (Pa := pow1 n (deg2 a)). assert (Pb := pow1 n (deg2 b)).
-    set (A := (n + 1) ^ deg2 a) in *. set (B := (n + 1) ^ deg2 b) in *.
-    assert (H1 : coef2 a * A * (K + 1) <= coef2 a * (A * B) * (K + 1)) by nia.
-    assert (H2 : coef2 b * B * (K + 1) <= coef2 b * (A * B) * (K + 1)) by nia.
-    assert (H3 : 1 <= A * B * (K + 1)) by nia.
-    nia.
+    specialize (IHa n K). specialize (IHb n K).
+    assert (Ma : (n + 1) ^ deg2 a <= (n + 1) ^ Nat.max (deg2 a) (deg2 b)) by (apply Nat.pow_le_mono_r; lia).
+    assert (Mb : (n + 1) ^ deg2 b <= (n + 1) ^ Nat.max (deg2 a) (deg2 b)) by (apply Nat.pow_le_mono_r; lia).
+    assert (Pm := pow1 n (Nat.max (deg2 a) (deg2 b))).
+    set (A := (n + 1) ^ deg2 a) in *. set (B := (n + 1) ^ deg2 b) in *. set (M := (n + 1) ^ Nat.max (deg2 a) (deg2 b)) in *.
+    assert (H1 : coef2 a * A * (K + 1) <= coef2 a * M * (K + 1)) by nia.
+    assert (H2 : coef2 b * B * (K + 1) <= coef2 b * M * (K + 1)) by nia.
+    assert (H3 : 1 <= M * (K + 1)) by nia.
+    replace ((1 + coef2 a + coef2 b) * M * (K + 1)) with (M * (K + 1) + coef2 a * M * (K + 1) + coef2 b * M * (K + 1)) by ring.
+    lia.
   - cbn [bound2 coef2 deg2].
     specialize (IHa n K). assert (Pa := pow1 n (deg2 a)).
     set (A := (n + 1) ^ deg2 a) in *.
@@ -129,12 +135,7 @@ Proof.
     lia.
   - (* quantifiers *)
     destruct a as [| c0 | | | a1 a2 | | | |]; try (simpl; lia).
-    + cbn [bound2 coef2 deg2].
-      replace (5 * (n + 1) ^ 1 * (K + 1)) with (5 * ((n + 1) * (K + 1))) by (simpl; ring).
-      assert (H1 : (n + 1) * (K + 3) <= 3 * ((n + 1) * (K + 1))) by (ring_simplify; lia).
-      assert (H2 : 1 + K <= (n + 1) * (K + 1)) by (ring_simplify; lia).
-      lia.
-    + destruct a1 as [| d | | | | | | |]; try (simpl; lia).
+    destruct a1 as [| d | | | | | | |]; try (simpl; lia).
       cbn [bound2 coef2 deg2].
       assert (D := dbound_polynomial a2 n (K + 3)).
       assert (P := pow1 n (ddeg a2)).
@@ -160,22 +161,28 @@ Proof.
 Qed.
 
 (* ---- the regular expressions of the parsers: every one of them is matched, on every well-formed subject of n
-   characters, in at most coef2 * (n+1)^deg2 steps, and no degree exceeds 7 ---- *)
+   characters, in at most coef2 * (n+1)^deg2 steps, and no degree exceeds 8 (5 at the time of writing: the Google name/annotation/description regex;
+   the margin keeps a harmless extra quantifier from breaking the build, criterion A2 stays the gate) ---- *)
 Definition repo_degrees : list (string * nat) := map (fun x => (fst x, deg2 (rx_re (snd x)))) all_regexes.
 
-Lemma repo_regexes_degree_at_most_7 : forallb (fun x => snd x <=? 7) repo_degrees = true.
+Lemma repo_regexes_degree_at_most_8 : forallb (fun x => snd x <=? 8) repo_degrees = true.
 Proof. vm_compute. reflexivity. Qed.
 
 Theorem repo_regexes_polynomial :
   forall key x s, In (key, x) all_regexes -> wf_text s ->
     fst (re_match_c (rx_ic x) (rx_re x) s) <= coef2 (rx_re x) * (List.length s + 1) ^ deg2 (rx_re x)
-    /\ deg2 (rx_re x) <= 7.
+    /\ deg2 (rx_re x) <= 8.
 Proof.
   intros key x s HIn W. split.
   - assert (H := repo_regexes_bounded key x s HIn W).
     assert (P := bound2_polynomial (rx_re x) (List.length s) 0). lia.
-  - assert (H := repo_regexes_degree_at_most_7). rewrite forallb_forall in H.
+  - assert (H := repo_regexes_degree_at_most_8). rewrite forallb_forall in H.
     assert (I : In (key, deg2 (rx_re x)) repo_degrees).
     { unfold repo_degrees. apply in_map_iff. exists (key, x). split; [reflexivity|exact HIn]. }
     specialize (H _ I). apply Nat.leb_le in H. exact H.
 Qed.
+
+(* non-vacuity: the degree of the nested-name iteration of Proofs/C12_regex2.v *)
+Example names_degree :
+  deg2 re_names = 3 /\ bound2 re_names 13 0 <= coef2 re_names * (13 + 1) ^ deg2 re_names * (0 + 1).
+Proof. split; [vm_compute; reflexivity|apply bound2_polynomial]. Qed.
